@@ -51,6 +51,10 @@ pub struct Case {
     /// is a new attempt
     #[serde(default)]
     pub stale: Vec<(u8, u16)>,
+    /// connection plans whose first Initial is damaged on the link inside the protected payload: the
+    /// server's accept() fails to authenticate it, the client's retransmission is a new attempt
+    #[serde(default)]
+    pub corrupt_first: Vec<u8>,
 }
 
 fn gen() -> XferGen {
@@ -71,8 +75,9 @@ pub fn arb_case() -> impl Strategy<Value = Case> {
         // short connection IDs: retired values are issued again soon
         (prop::option::weighted(0.2, 1u8..=2), prop::option::weighted(0.2, 1u8..=2)),
         prop_oneof![2 => Just(vec![]), 1 => prop::collection::vec((0u8..12, 2u16..80), 1..4)],
+        prop_oneof![3 => Just(vec![]), 1 => prop::collection::vec(0u8..10, 1..3)],
     )
-        .prop_map(|(net, n_ceps, n_seps, conns, target, life_c, life_s, (short_c, short_s), stale)| {
+        .prop_map(|(net, n_ceps, n_seps, conns, target, life_c, life_s, (short_c, short_s), stale, corrupt_first)| {
             let mut net = net;
             net.client_ep.cid_lifetime_ms = life_c;
             net.server_ep.cid_lifetime_ms = life_s;
@@ -81,7 +86,7 @@ pub fn arb_case() -> impl Strategy<Value = Case> {
                     ep.cid_len = l;
                 }
             }
-            normalize_case(Case { net, n_ceps, n_seps, conns, target, stale })
+            normalize_case(Case { net, n_ceps, n_seps, conns, target, stale, corrupt_first })
         })
 }
 
@@ -223,6 +228,10 @@ pub fn case(c: &Case) -> CaseOut {
                 }
             }
             let to = w.eps[seps[p.sep as usize]].addrs[0];
+            if c.corrupt_first.iter().any(|x| *x as usize == next_plan) {
+                let k = w.conns.len();
+                w.corrupt_first_of.insert(k);
+            }
             match w.connect_to(ceps[p.cep as usize], ConnLoad { client, server }, to) {
                 Ok(k) => client_conn[next_plan] = Some(k),
                 Err(_) => refused += 1,
@@ -341,6 +350,9 @@ pub fn case(c: &Case) -> CaseOut {
             .enumerate()
             .map(|(k, cs)| format!("conn {k} {:?} load {} connected={} lost={:?} out={} recv_terminal={}/{}", cs.side, cs.load_idx, cs.app.connected, cs.app.lost, cs.app.outgoing_complete(), cs.app.recv.values().filter(|r| r.terminal.is_some()).count(), cs.app.recv.len()))
             .collect();
+        if std::env::var("QV_TRACE").is_ok() {
+            eprintln!("{}", w.dump_trace(0, 200));
+        }
         return CaseOut::fail("c09/isolation/workload-incomplete", format!("a connection other than the target did not complete its workload within 15 virtual minutes after the last fault/start: {st:#?}\ntarget {target:?} link {:?}", w.stats));
     }
     // facts for labels before teardown
